@@ -7,6 +7,7 @@ VARIABLE out
 
 Pol1(l, p, t) == [L |-> <<l>>, P |-> p, T |-> t]
 Pol2(l1, l2, p, t) == [L |-> <<l1, l2>>, P |-> p, T |-> t]
+Pol3(l1, l2, l3, p, t) == [L |-> <<l1, l2, l3>>, P |-> p, T |-> t]
 
 (* single limiter: timeout 0, < period, = period, multiples and non-multiples of the period *)
 GridA == {Pol1(l, 2, t) : l \in {1, 2, 3}, t \in {0, 1, 2, 4, 5}}
@@ -16,6 +17,11 @@ GridAB == GridA \cup GridB
 GridM == {Pol2(1, 2, 2, 0), Pol2(2, 3, 2, 0), Pol2(2, 5, 3, 0), Pol2(3, 4, 2, 0)}
 (* MultiRateLimiter with a timeout: not used by easegress; explored as a lead only *)
 GridMT == {Pol2(2, 10, 2, 4), Pol2(1, 2, 2, 2)}
+(* MultiRateLimiter with a timeout > 0, judged by the one clause that is a statement about the  *)
+(* reply alone (WaitBound; see "Scope" in RateLimiter.tla): timeout < period, = period,         *)
+(* multiples and non-multiples of it; the scarce dimension first, last, in the middle           *)
+GridMW == {Pol2(2, 3, 2, t) : t \in {1, 2, 4, 5}} \cup {Pol2(3, 2, 2, t) : t \in {2, 5}}
+          \cup {Pol2(1, 4, 3, 7), Pol2(2, 10, 2, 4), Pol3(2, 1, 4, 2, 4), Pol3(3, 5, 2, 2, 3)}
 
 GapsS == {0, 1, 2, 3, 7}
 GapsL == {0, 1, 2, 3, 5, 7, 13}
@@ -24,6 +30,11 @@ N123 == {<<1>>, <<2>>, <<3>>}
 N15 == {<<1>>, <<2>>, <<5>>}
 M2 == {<<1, 1>>, <<1, 2>>, <<1, 4>>}
 M10 == {<<1, 1>>, <<1, 10>>}
+MW == {<<1, 1>>, <<1, 2>>, <<1, 4>>, <<2, 1>>, <<1, 1, 1>>, <<1, 1, 2>>, <<1, 2, 1>>}
+
+(* for checking WaitBound on the implementation-shaped layer alone: the replies of IArrive depend *)
+(* on (pol, now, start, dis, cyc, tok) only, the contract's bookkeeping never disables a step    *)
+viewW == <<pol, now, start, dis, narr, cyc, tok>>
 
 GInit == Init /\ out = ToJson([a |-> "init", pol |-> pol])
 GNext == Next /\ out' = ToJson(last')
